@@ -31,9 +31,9 @@ import (
 
 func cases(tier string) int {
 	if tier == "thorough" {
-		return 9000
+		return 36000
 	}
-	return 720
+	return 2880
 }
 
 func TestCheck(t *testing.T) {
